@@ -14,6 +14,12 @@ os.makedirs(dest, exist_ok=True)
 shutil.copy(patch, os.path.join(dest, "patch.diff"))
 shutil.copy(demo, os.path.join(dest, "demo.py"))
 scratch = tempfile.mkdtemp(prefix="fvmc-seed-", dir=os.environ.get("VERIF_SCRATCH", "/var/tmp"))
+old_meta = {}
+if os.path.exists(os.path.join(dest, "meta.json")):
+    try:
+        old_meta = json.load(open(os.path.join(dest, "meta.json")))
+    except Exception:
+        old_meta = {}
 meta = {"name": name, "breaks_property": prop, "needs_to_manifest": needs, "ran": []}
 try:
     dst = os.path.join(scratch, "repo")
@@ -40,9 +46,16 @@ try:
         rc1, out1 = run_demo()
         meta["demo_with_change_exit"] = rc1
         meta["demo_with_change_tail"] = out1[-300:]
-        t = subprocess.run([sys.executable, os.path.join(VERIF, "tools", "run_baseline.py"), dst], capture_output=True, text=True)
-        meta["pinned_tests_pass"] = t.returncode == 0
-        meta["pinned_tests_line"] = t.stdout.strip().splitlines()[0] if t.stdout.strip() else ""
+        if os.environ.get("SEED_SKIP_TESTS") and old_meta.get("pinned_tests_pass") is not None:
+            # re-verification of the checks only: the pinned-suite verdict of this patch is carried over
+            meta["pinned_tests_pass"] = old_meta["pinned_tests_pass"]
+            meta["pinned_tests_line"] = old_meta.get("pinned_tests_line", "")
+            meta["pinned_tests_run_at_base"] = old_meta.get("pinned_tests_run_at_base", old_meta.get("base_commit"))
+        else:
+            t = subprocess.run([sys.executable, os.path.join(VERIF, "tools", "run_baseline.py"), dst], capture_output=True, text=True)
+            meta["pinned_tests_pass"] = t.returncode == 0
+            meta["pinned_tests_line"] = t.stdout.strip().splitlines()[0] if t.stdout.strip() else ""
+            meta["pinned_tests_run_at_base"] = meta["base_commit"]
         meta["checks"] = {}
         for pid in ids:
             e = dict(os.environ, VERIF_REPO=dst, VERIF_NOEVIDENCE="1")
